@@ -89,6 +89,47 @@ static rc::Gen<Case> gen_ctx(int) {
   });
 }
 
+// long streams: the 32-bit halves of the SHA-1 / MD5 bit counters (and whatever else only becomes non-zero late) must be wiped too
+static Outcome run_ctxlong(const Case &c) {
+  Outcome o;
+  for (const Op &op : c) {
+    auto A = [&](size_t i) -> int64_t { return i < op.a.size() ? op.a[i] : 0; };
+    int alg = (int)(((A(0) % 6) + 6) % 6);
+    size_t chunklen = (size_t)1 << 20;
+    size_t nchunks = 512 + (size_t)std::min<int64_t>(std::max<int64_t>(A(1), 0), 3);  // >= 2^29 bytes = 2^32 bits
+    size_t tail = (size_t)std::min<int64_t>(std::max<int64_t>(A(2), 0), 200);
+    std::string chunk = prbytes((uint64_t)A(3), chunklen), key = prbytes((uint64_t)A(3) ^ 7, 40);
+    size_t n = shim_ctx_size(alg);
+    uint8_t *ctx = (uint8_t *)malloc(n);
+    memset(ctx, 0xEE, n);
+    uint8_t dig[64];
+    shim_hash_long(alg, ctx, (const uint8_t *)key.data(), key.size(), (const uint8_t *)chunk.data(), chunklen, nchunks, tail, dig);
+    size_t nz = 0, first = 0;
+    for (size_t i = 0; i < n; i++)
+      if (ctx[i]) {
+        if (!nz) first = i;
+        nz++;
+      }
+    free(ctx);
+    o.nontrivial = true;
+    o.cls(std::string(ALG[alg]) + ">=2^32-bits");
+    if (nz) {
+      char m[240];
+      snprintf(m, sizeof m, "%s context holds %zu non-zero bytes after Final of a %zu MiB + %zu byte stream (first at offset %zu of %zu)", ALG[alg], nz, nchunks, tail, first, n);
+      o.fail(std::string("ctx-not-zero-long-") + ALG[alg], m);
+      return o;
+    }
+  }
+  return o;
+}
+static rc::Gen<Case> gen_ctxlong(int) {
+  return rc::gen::exec([]() {
+    Case c;  // every case visits all six algorithms
+    for (int alg = 0; alg < 6; alg++) c.push_back(Op("ctxlong", {alg, *range<int>(0, 3), *range<int>(0, 200), *rc::gen::arbitrary<int>()}));
+    return c;
+  });
+}
+
 // ------------------------------------------------------------------ AES objects
 struct FreeRec {
   void *p;
@@ -470,6 +511,10 @@ int main(int argc, char **argv) {
                   "SHA-256/SHA-1/MD5 and their HMACs: generated message, key and update partition (incl. 0-length updates, block boundaries); the context lives "
                   "in a caller-owned block of exactly its size; oracle: every byte of it is zero after Final. Non-trivial: message not empty",
                   gen_ctx, run_ctx});
+  subs.push_back({"ctxlong",
+                  "the same six algorithms fed 512..515 MiB (+0..200 bytes) in 1 MiB updates, so that the message length passes 2^32 bits and every counter word has been "
+                  "non-zero; oracle: context all-zero after Final. Non-trivial: always",
+                  gen_ctxlong, run_ctxlong});
   Sub a{"aes",
         "expanded AES key + up to 4 AES-CTR stream objects driven by a generated history (block encryptions, stream calls, init2 re-use, alloc+init2, one-shot "
         "buf) on the AES-NI and on the OpenSSL path (run-time CPU mask); every history is run twice with different keys/nonces; objects are snapshotted "
